@@ -41,7 +41,14 @@ pub enum Op {
         #[serde(default)]
         how: u8,
     },
-    Read { buf: u16, times: u16, gap: u8 },
+    /// `peek`: wait for readiness with peek() before every read (the peek-for-readiness-then-read pattern)
+    Read {
+        buf: u16,
+        times: u16,
+        gap: u8,
+        #[serde(default)]
+        peek: bool,
+    },
     ReadToEnd { buf: u16 },
     Shutdown,
     DropStream,
@@ -494,11 +501,20 @@ fn run_ops(cx: Ctx, ops: Vec<Op>, guard: TaskGuard, stream_in: Option<(TcpStream
                         }
                     }
                 }
-                Op::Read { buf, times, gap } => {
+                Op::Read { buf, times, gap, peek } => {
                     let Some((s, ph, born, acc)) = stream.as_mut() else { continue };
                     let mut b = vec![0u8; (*buf as usize).max(1)];
                     for k in 0..*times {
                         let g = cx.begin(PK::Read, *ph, *born, *acc);
+                        if *peek {
+                            let mut p = [0u8; 1];
+                            if let Err(e) = s.peek(&mut p).await {
+                                g.finish(Res::Err(err_kind(&e)), None);
+                                cx.log(format!("peek #{k} err {}", err_kind(&e)));
+                                cx.tag("r-err");
+                                break;
+                            }
+                        }
                         let r = s.read(&mut b).await;
                         cx.bump();
                         match r {
@@ -881,7 +897,7 @@ fn gen_scenario(rng: &mut Rng) -> Scenario {
             1 => {
                 // V reads (slowly or eagerly), the peer writes
                 let rgap = *rng.pick(&[0u8, 0, 1, 3]);
-                v.push(Op::Spawn { local: true, ops: vec![Op::Listen { port: 7011 }, Op::AcceptLoop { serve: vec![Op::Read { buf: *rng.pick(&[4u16, 16, 64]), times: 400, gap: rgap }] }] });
+                v.push(Op::Spawn { local: true, ops: vec![Op::Listen { port: 7011 }, Op::AcceptLoop { serve: vec![Op::Read { buf: *rng.pick(&[4u16, 16, 64]), times: 400, gap: rgap, peek: rng.chance(1, 3) }] }] });
                 // half of the peers write more segments than tcp_capacity allows to be outstanding: they are
                 // parked on the flow-control credits when the crash lands (former known finding C04-K1, repaired)
                 let times = if rng.bool() { rng.range(1, cap.min(12) as u64) as u16 } else { rng.range(cap as u64 + 1, cap as u64 + 8) as u16 };
@@ -903,7 +919,7 @@ fn gen_scenario(rng: &mut Rng) -> Scenario {
                     _ => 300,
                 };
                 v.push(Op::Spawn { local: true, ops: vec![Op::Listen { port: 7012 }, Op::AcceptLoop { serve: vec![Op::Write { len: *rng.pick(&[1u16, 8, 32]), times, gap: wgap, how: if rng.chance(1, 3) { 1 } else { 0 } }] }] });
-                peer_tasks.push(vec![Op::Sleep { ticks: rng.range(0, 4) as u8 }, Op::Connect { host: 0, port: 7012 }, Op::Read { buf: *rng.pick(&[4u16, 16, 64]), times: 2000, gap: *rng.pick(&[0u8, 0, 2]) }]);
+                peer_tasks.push(vec![Op::Sleep { ticks: rng.range(0, 4) as u8 }, Op::Connect { host: 0, port: 7012 }, Op::Read { buf: *rng.pick(&[4u16, 16, 64]), times: 2000, gap: *rng.pick(&[0u8, 0, 2]), peek: rng.chance(1, 3) }]);
             }
             3 => {
                 // idle established streams, both ends blocked in read
@@ -947,6 +963,11 @@ fn gen_scenario(rng: &mut Rng) -> Scenario {
             }
             6 => {
                 v.push(Op::Spawn { local: true, ops: vec![Op::Fs { chunks: 40, sync_every: *rng.pick(&[0u8, 1, 3]), gap: 1 }] });
+                // ... and a TCP connection of the victim to itself (through its own address), open at the crash
+                if rng.chance(1, 2) {
+                    v.push(Op::Spawn { local: true, ops: vec![Op::Listen { port: 7014 }, Op::AcceptLoop { serve: vec![Op::Read { buf: 16, times: 400, gap: 0, peek: false }] }] });
+                    v.push(Op::Spawn { local: rng.bool(), ops: vec![Op::Sleep { ticks: 1 }, Op::Connect { host: 0, port: 7014 }, Op::Write { len: 8, times: 200, gap: 1, how: 0 }] });
+                }
             }
             7 => {
                 v.push(Op::Spawn { local: true, ops: vec![Op::Ring { writes: 40, gap: 1 }] });
@@ -964,7 +985,7 @@ fn gen_scenario(rng: &mut Rng) -> Scenario {
                 let mut vops = vec![Op::Sleep { ticks: rng.range(0, w as u64 / 2) as u8 }, Op::Connect { host: p0 as u8, port }];
                 match rng.below(3) {
                     0 => vops.extend([Op::Write { len: 8, times: 1, gap: 0, how: if rng.chance(1, 3) { 1 } else { 0 } }, Op::ReadToEnd { buf: 16 }]),
-                    1 => vops.push(Op::Read { buf: *rng.pick(&[4u16, 16, 64]), times: 400, gap: rng.range(1, 3) as u8 }),
+                    1 => vops.push(Op::Read { buf: *rng.pick(&[4u16, 16, 64]), times: 400, gap: rng.range(1, 3) as u8, peek: rng.chance(1, 3) }),
                     _ => vops.push(Op::Forever { gap: 2 }),
                 }
                 v.push(Op::Spawn { local: true, ops: vops });
@@ -1017,7 +1038,7 @@ fn gen_scenario(rng: &mut Rng) -> Scenario {
     progs[u0 + 1] = vec![
         Op::Spawn { local: true, ops: vec![Op::UdpBind { port: 7101 }, Op::UdpRecv { times: 5000 }] },
         Op::Spawn { local: true, ops: vec![Op::Fs { chunks: 30, sync_every: 2, gap: 1 }] },
-        Op::Spawn { local: true, ops: vec![Op::Listen { port: 7100 }, Op::AcceptLoop { serve: vec![Op::Read { buf: 16, times: 3000, gap: 0 }] }] },
+        Op::Spawn { local: true, ops: vec![Op::Listen { port: 7100 }, Op::AcceptLoop { serve: vec![Op::Read { buf: 16, times: 3000, gap: 0, peek: rng.chance(1, 3) }] }] },
         Op::Forever { gap: 2 },
     ];
     if shared_group {
